@@ -17,7 +17,8 @@ NCPU = os.cpu_count() or 4
 
 CFLAGS_COMMON = ["-DHAVE_CONFIG_H", "-D_GNU_SOURCE", "-D_XOPEN_SOURCE=700", "-DNDEBUG=1",
                  "-I" + REPO, "-I" + REPO + "/src/include", "-I" + REPO + "/src/microhttpd",
-                 "-I/usr/include/p11-kit-1", "-I" + os.path.join(VERIF, "harness")]
+                 "-I/usr/include/p11-kit-1", "-I" + os.path.join(VERIF, "harness"),
+                 "-idirafter", "/repo"]  # MHD_config.h (configure output, untracked) when VERIF_REPO is a scratch worktree
 SAN = ["-O1", "-g", "-fsanitize=address,undefined", "-fno-sanitize-recover=all", "-fno-omit-frame-pointer"]
 
 ALLOWED_AXIOMS = {"propext", "Classical.choice", "Quot.sound"}
